@@ -308,6 +308,11 @@ def build_call(call):
             for form, pname, tv in v:
                 t, is_arr, val, emb = tv
                 pv = S.build_value(t, val)
+                if t == 'char16':
+                    # the CIM type of (name, value) tuples is inferred
+                    pv = [None if x is None else pywbem.Char16(x)
+                          for x in pv] if isinstance(pv, list) else \
+                        (None if pv is None else pywbem.Char16(pv))
                 if form == 'tuple':
                     plist.append((pname, pv))
                 else:
